@@ -129,7 +129,7 @@ func (c01) AfterOp(x *Exec, task, idx int, op Op, out Outcome) {
 	}
 	before := st.m
 	if why := st.stepModel(x, op, out, c01keys); why != "" {
-		x.fail("model-mismatch:"+op.M, fmt.Sprintf("after %s: %s (model before the call: %s)", op, why, before.S[op.Obj].key()))
+		x.fail("model-mismatch:"+mismatchSite(op, why), fmt.Sprintf("after %s: %s (model before the call: %s)", op, why, before.S[op.Obj].key()))
 		return
 	}
 	histShape(x, st, op, before)
